@@ -23,22 +23,39 @@ import stixgen
 import tr_callsites
 
 MANIFEST = {
-    "text": "Coq theorems over the call-site table REGENERATED from the ast of /repo on every run: every entry point with a "
-            "version parameter (parse, dict_to_stix2, parse_observable, Environment/workbench.parse, MemoryStore/Source/Sink "
-            "construction, add, load_from_file, FileSystemSource/Store get/all_versions/query, FileSystemSink/Store add) hands "
-            "exactly its own version argument to the parser along EVERY chain of call sites, the interoperability and "
-            "allow_custom switches never derive from it; detect_spec_version recognises every shape the serialiser emits "
-            "(all jvalue, any bundle nesting); strict id check of 2.0 implies that of any version.  Refuted witness for the "
-            "frozen pre-fix table.",
-    "design_ref": "DESIGN.md 6/C14",
-    "note": "Trusted: Coq kernel + vm_compute; tr_callsites (fail-closed ast translator, validated each run by driving every "
-            "entry point against a direct parse with the triple the table predicts); the hand models of detect_spec_version / "
-            "_check_uuid (validated each run against the code).  Props/C14Schema.v (schema_detect_agrees: Model/Schema.v "
-            "detect_version = Model/VersionDetect.v detect where the former yields a version) DEPENDS ON r-schema's files "
-            "(Model/SchemaTypes.v, PyBase.v, Schema.v, Gen/Tables.v): when one of them does not build the theorem is not claimed "
-            "(note in the evidence, obligations count only Props/C14.v).  TAXII entry points are driven against a stand-in "
-            "taxii2client package (taxii2client is not installed); workbench in a worker of its own.",
-    "technique": "Coq proof over a call-site table translated from source + behavioural correspondence through every entry point",
+    "text": "PROVED (Coq, closed, Props/C14.v 21 theorems) over the call-site table REGENERATED from the ast of /repo on every "
+            "run (tr_callsites; finite table = the quantifier, vm_compute lifted by forallb_forall + a closed-set invariant, so "
+            "call chains of any length incl. recursion): every entry point with a version parameter -- parse, dict_to_stix2, "
+            "parse_observable, Environment/workbench.parse, workbench.save, MemoryStore/Source/Sink construction, add, "
+            "load_from_file, FileSystemSource/Store get/all_versions/query, FileSystemSink/Store add, the TAXII source/sink/store "
+            "-- hands exactly its own version argument to every activation of the parser it reaches; interoperability and "
+            "allow_custom never derive from it (symbolically and on concrete arguments); the enumerated entry points are in the "
+            "table and each reaches the parser; the one-site TAXII repair is the identity now (taxii_single_deviation).  For ALL "
+            "inputs: detect_spec_version recognises every shape the serialiser emits, any bundle nesting, any registry "
+            "(detect_own_output); strict id acceptance under 2.0 implies any version; with the canonical-text check strict "
+            "acceptance implies relaxed acceptance for every text; canonical text of every 128-bit value is read back exactly "
+            "(strict_accepts_canonical).  Refuted witnesses on frozen excerpts of the pinned tables (positional store call "
+            "sites, TAXII all_versions).  Props/C14Schema.v: Model/Schema.v detect_version agrees with Model/VersionDetect.v "
+            "wherever it yields a version (schema_detect_agrees).",
+    "design_ref": "DESIGN.md 6/C14; design_notes/C14.md",
+    "note": "Coverage predicate of the run-time part: an evaluation is non-trivial when direct parses of the same dictionary do "
+            "not all agree across the 12 (allow_custom, interoperability, version) triples.  CORRESPONDENCE-ONLY: the triple the "
+            "table predicts is confirmed by driving every entry point (memory, filesystem incl. bundle files and the legacy flat "
+            "layout, workbench and TAXII in workers of their own; TAXII against a stand-in taxii2client package, taxii2client "
+            "is not installed) against a direct parse with that triple; the hand models of detect_spec_version, the class "
+            "choice and _check_uuid/_validate_id (incl. CPython uuid.UUID()/int(..,16) text acceptance) are compared with the "
+            "code on generated inputs, variants (two detect repairs, canonical-text id check, regex end, TAXII sink dict "
+            "branch) detected at run time.  ORACLE-ONLY: same outcome as a direct parse with the entry's own switches; result "
+            "class registered for the named version; library output keeps its class without a version; history independence "
+            "(answer does not depend on an earlier question about the same id; confirmed in a fresh interpreter).  The TAXII "
+            "sink's Bundle wrapping is outside the table (known finding C14-taxii-sink-bundle-wrap-reinterprets).  ASSUMED: "
+            "control flow inside a def is over-approximated (every call site taken); what the classes do with the switches "
+            "after obj_class(allow_custom=.., interoperability=.., **data) is C02-C04's subject; text outside printable ASCII "
+            "is outside the id model.  Props/C14Schema.v DEPENDS ON r-schema's files (Model/SchemaTypes.v, PyBase.v, Schema.v; "
+            "the model-vs-model stream also on Gen/Tables.v): when one of them does not build the theorem is not claimed "
+            "(note in the evidence; obligations then count Props/C14.v only).",
+    "technique": "Coq proof over a call-site table translated from source on every run + behavioural correspondence through "
+                 "every entry point + property oracle with replay",
 }
 
 HEADER = """From Coq Require Import NArith ZArith List String.
@@ -1121,6 +1138,8 @@ def schema_stream(run, md):
             good = b.startswith("V ") and b not in ("V '2.0'", "V '2.1'") and not b.startswith("V [") and not b.startswith("V {")
         elif a == "KeyError":
             good = b.startswith("KeyError") or b == "ParseError"
+        elif a == "ParseError":       # schema model with its variant for 3b082cc (a member without `type`)
+            good = b == "ParseError"
         elif a == "TypeError":
             good = b == "TypeError" or b.startswith("V [") or b.startswith("V {")
         elif a == "ValueError":
